@@ -247,36 +247,40 @@ Record rctx := {
   r_macros : list (str * list op);               (* tag_namespace["macros"] *)
   r_extends : list (str * list (list op));       (* tag_namespace["extends"] *)
   r_disabled : list str;                         (* self.disabled_tags *)
-  r_out : str                                    (* the output buffer *)
+  r_out : str;                                   (* the output buffer *)
+  r_depth : nat                                  (* self._copy_depth *)
 }.
 
 (** RenderContext.__init__: everything but globals / disabled_tags starts empty. *)
-Definition fresh_ctx (globals root : list frame) (disabled : list str) (out : str) : rctx :=
+Definition fresh_ctx (globals root : list frame) (disabled : list str) (out : str) (depth : nat) : rctx :=
   {| r_locals := []; r_globals := globals; r_root := root; r_counters := [];
      r_cycles := []; r_stop := []; r_macros := []; r_extends := [];
-     r_disabled := disabled; r_out := out |}.
+     r_disabled := disabled; r_out := out; r_depth := depth |}.
 
 Definition set_locals r x := {| r_locals := x; r_globals := r_globals r; r_root := r_root r;
   r_counters := r_counters r; r_cycles := r_cycles r; r_stop := r_stop r; r_macros := r_macros r;
-  r_extends := r_extends r; r_disabled := r_disabled r; r_out := r_out r |}.
+  r_extends := r_extends r; r_disabled := r_disabled r; r_out := r_out r; r_depth := r_depth r |}.
 Definition set_counters r x := {| r_locals := r_locals r; r_globals := r_globals r; r_root := r_root r;
   r_counters := x; r_cycles := r_cycles r; r_stop := r_stop r; r_macros := r_macros r;
-  r_extends := r_extends r; r_disabled := r_disabled r; r_out := r_out r |}.
+  r_extends := r_extends r; r_disabled := r_disabled r; r_out := r_out r; r_depth := r_depth r |}.
 Definition set_cycles r x := {| r_locals := r_locals r; r_globals := r_globals r; r_root := r_root r;
   r_counters := r_counters r; r_cycles := x; r_stop := r_stop r; r_macros := r_macros r;
-  r_extends := r_extends r; r_disabled := r_disabled r; r_out := r_out r |}.
+  r_extends := r_extends r; r_disabled := r_disabled r; r_out := r_out r; r_depth := r_depth r |}.
 Definition set_stop r x := {| r_locals := r_locals r; r_globals := r_globals r; r_root := r_root r;
   r_counters := r_counters r; r_cycles := r_cycles r; r_stop := x; r_macros := r_macros r;
-  r_extends := r_extends r; r_disabled := r_disabled r; r_out := r_out r |}.
+  r_extends := r_extends r; r_disabled := r_disabled r; r_out := r_out r; r_depth := r_depth r |}.
 Definition set_macros r x := {| r_locals := r_locals r; r_globals := r_globals r; r_root := r_root r;
   r_counters := r_counters r; r_cycles := r_cycles r; r_stop := r_stop r; r_macros := x;
-  r_extends := r_extends r; r_disabled := r_disabled r; r_out := r_out r |}.
+  r_extends := r_extends r; r_disabled := r_disabled r; r_out := r_out r; r_depth := r_depth r |}.
 Definition set_extends r x := {| r_locals := r_locals r; r_globals := r_globals r; r_root := r_root r;
   r_counters := r_counters r; r_cycles := r_cycles r; r_stop := r_stop r; r_macros := r_macros r;
-  r_extends := x; r_disabled := r_disabled r; r_out := r_out r |}.
+  r_extends := x; r_disabled := r_disabled r; r_out := r_out r; r_depth := r_depth r |}.
 Definition set_out r x := {| r_locals := r_locals r; r_globals := r_globals r; r_root := r_root r;
   r_counters := r_counters r; r_cycles := r_cycles r; r_stop := r_stop r; r_macros := r_macros r;
-  r_extends := r_extends r; r_disabled := r_disabled r; r_out := x |}.
+  r_extends := r_extends r; r_disabled := r_disabled r; r_out := x; r_depth := r_depth r |}.
+
+(** RenderContext.copy(): `if self._copy_depth > self.env.context_depth_limit` (30). *)
+Definition depth_exceeded (r : rctx) : bool := Nat.ltb 30 (r_depth r).
 
 Definition out (r : rctx) (s : str) : rctx := set_out r (r_out r ++ s).
 
@@ -558,11 +562,17 @@ Fixpoint run_gen (fuel : nat) (cur : prog) (p : prog) (L : lst) (r : rctx)
               | Some body =>
                   let ns := [(s_args, VList []); (s_kwargs, VStr s_braces false);
                              (s_a, eval X r e)] in
-                  (* context.copy(): a new context over the template's root globals *)
-                  let sub := fresh_ctx (FMap ns :: r_root r) (r_root r)
-                               [s_include; s_block] (r_out r) in
-                  bindL (run_gen f cur body L sub)
-                    (fun rb L1 => k (set_out r (r_out (fst rb)), snd rb) L1)
+                  (* context.copy(): a new context over the template's root globals; the body
+                     gets a COPY of the registry of macros (a macro may call another macro or
+                     itself, up to the context depth limit; a macro defined inside the body is
+                     not visible to the caller) *)
+                  if depth_exceeded r then (LErr ContextDepthError None, L)
+                  else
+                    let sub := set_macros (fresh_ctx (FMap ns :: r_root r) (r_root r)
+                                             [s_include; s_block] (r_out r) (S (r_depth r)))
+                                 (r_macros r) in
+                    bindL (run_gen f cur body L sub)
+                      (fun rb L1 => k (set_out r (r_out (fst rb)), snd rb) L1)
               end
           | Include name =>                      (* include_tag.py *)
               if mem_str s_include (r_disabled r) then (LErr DisabledTagError None, L)
@@ -572,9 +582,12 @@ Fixpoint run_gen (fuel : nat) (cur : prog) (p : prog) (L : lst) (r : rctx)
           | RenderP name =>                      (* render_tag.py: context.copy(), `include` disabled *)
               bindL (load_counted L name)
                 (fun t L1 =>
-                   let sub := fresh_ctx (FMap [] :: r_root r) (r_root r) [s_include] (r_out r) in
-                   bindL (run_gen f t t L1 sub)
-                     (fun rb L2 => k (set_out r (r_out (fst rb)), false) L2))
+                   if depth_exceeded r then (LErr ContextDepthError None, L1)
+                   else
+                     let sub := fresh_ctx (FMap [] :: r_root r) (r_root r) [s_include] (r_out r)
+                                  (S (r_depth r)) in
+                     bindL (run_gen f t t L1 sub)
+                       (fun rb L2 => k (set_out r (r_out (fst rb)), false) L2))
           | Extends _ =>                         (* extends_tag.py ExtendsNode *)
               bindL (build_stacks f cur [] (r_extends r) L)
                 (fun bs L1 =>
@@ -593,19 +606,21 @@ Fixpoint run_gen (fuel : nat) (cur : prog) (p : prog) (L : lst) (r : rctx)
                        tags disabled here stay disabled.  The shared counters are the last
                        map of the copy's own scope, so the frame list it looks through
                        first is the current scope without its counters map. *)
+                    if depth_exceeded r then (LErr ContextDepthError None, L)
+                    else
                     let sub :=
                       {| r_locals := [];
                          r_globals := FMap [] :: FMap (r_locals r) :: r_globals r ++ [FBuiltin];
                          r_root := r_root r; r_counters := r_counters r; r_cycles := r_cycles r;
                          r_stop := r_stop r; r_macros := r_macros r; r_extends := r_extends r;
-                         r_disabled := r_disabled r; r_out := r_out r |} in
+                         r_disabled := r_disabled r; r_out := r_out r; r_depth := S (r_depth r) |} in
                     bindL (run_gen f cur b0 L sub)
                       (fun rb L1 =>
                          let s1 := fst rb in
                          k ({| r_locals := r_locals r; r_globals := r_globals r; r_root := r_root r;
                                r_counters := r_counters s1; r_cycles := r_cycles s1; r_stop := r_stop s1;
                                r_macros := r_macros s1; r_extends := r_extends s1;
-                               r_disabled := r_disabled r; r_out := r_out s1 |}, snd rb) L1)
+                               r_disabled := r_disabled r; r_out := r_out s1; r_depth := r_depth r |}, snd rb) L1)
                 end
           | _ => bindL (simple_op X o r, L) (fun r1 L1 => k (r1, false) L1)
           end
@@ -762,7 +777,7 @@ Definition renv_of (E : envst) (clk : N) (fa fl : option nat) : renv :=
 (** Template.render (template.py:78-102): a NEW RenderContext whose globals are
     make_globals(render args) = ChainMap(args, overlay_data, global_data). *)
 Definition start_ctx (tglobals data : gmap) : rctx :=
-  let g := [FMap data; FMap tglobals] in fresh_ctx g g [] [].
+  let g := [FMap data; FMap tglobals] in fresh_ctx g g [] [] 0.
 
 Inductive obs :=
 | OText (s : str)
